@@ -759,6 +759,12 @@ impl ExecutionState {
     pub fn should_stop() -> bool {
         std::thread::panicking()
             || Self::with(|s| {
+                // The execution is over and its tasks are being torn down. This includes an execution
+                // that finished normally while detached tasks were still unfinished (or never started):
+                // their destructors run here and must not touch the scheduler.
+                if s.in_cleanup {
+                    return true;
+                }
                 assert_ne!(s.current_task, ScheduledTask::Finished);
                 s.current_task == ScheduledTask::Stopped
             })
